@@ -97,12 +97,13 @@ def check_producers(repo, model: FsmModel, pm: ProviderModel, rep):
                 all_sites[(mname, n.lineno)] = f
     # analyse the constructor and the three producers with their helpers inlined, so that an append inside a
     # helper is judged with the conditions of the path that reaches it
-    from ..excmodel import node_raises
+    from ..excmodel import node_raises, folder
+    _fold = folder(repo, 'dulprovider', 'DULServiceProvider')
     for name in ['__init__'] + list(PRODUCERS):
         f = pm.method(name)
         rep.analysed(f)
         c = pm.client(name, inline_helpers=True,
-                      raises_of=lambda node, cl, st: node_raises(node, lambda e: cl.term(e, st, heap_ext=False)))
+                      raises_of=lambda node, cl, st: node_raises(node, lambda e: cl.term(e, st, heap_ext=False), _fold))
         finals = c.final_states(c.run(empty_state()))
         for s, how in finals:
             for i, ev in enumerate(s.trail):
